@@ -295,6 +295,10 @@ func stdlibChain(t *taskState, a [3]cty.Value, p [3]int) opRes {
 			}
 		}
 	}
+	if ur1.IsKnown() && !ur1.IsNull() && (ur1.Type().IsCollectionType() || ur1.Type().IsTupleType()) && ur1.LengthInt() > 48 {
+		// (products and repetitions of long collections grow without bound when chained)
+		return opRes{vals: []cty.Value{r1}, s: sp.name + ":long"}
+	}
 	res := opRes{vals: []cty.Value{r1}, s: sp.name, violClass: "mutated-by-call"}
 	fpMid := fp(r1)
 	mid := r1
